@@ -223,11 +223,12 @@ def snap_real_raw(E, terms, cap=20000):
         return ('cyclic',)
 
 
-def build_real(yp, t, vmap):
-    """build an engine term from a tuple term; variables via vmap (name->Variable)"""
+def build_real(yp, t, vmap, atomf=None):
+    """build an engine term from a tuple term; variables via vmap (name->Variable); atomf (optional) supplies the
+    atom objects (atoms held from earlier / made by another engine are the same terms)"""
     k = t[0]
     if k == 'a':
-        return yp.atom(t[1])
+        return atomf(t[1]) if atomf else yp.atom(t[1])
     if k in ('i', 's'):
         return t[1]
     if k == 'v':
@@ -237,8 +238,8 @@ def build_real(yp, t, vmap):
             vmap[t] = yp.variable()
         return vmap[t]
     if t[1] == '.' and len(t[2]) == 2:
-        return yp.listpair(build_real(yp, t[2][0], vmap), build_real(yp, t[2][1], vmap))
-    return yp.functor(t[1], [build_real(yp, a, vmap) for a in t[2]])
+        return yp.listpair(build_real(yp, t[2][0], vmap, atomf), build_real(yp, t[2][1], vmap, atomf))
+    return yp.functor(t[1], [build_real(yp, a, vmap, atomf) for a in t[2]])
 
 
 # ---------------------------------------------------------------- rendering
